@@ -469,6 +469,55 @@ def dataset_case(ctx, rng, idx):
                               {'observed': tot, 'expected': exp,
                                'dose_rows': want}, feats)
 
+    # ---- a dose-free dataset given to the same controller later is scored
+    # ---- without any regimen (as by a fresh controller)
+    if order == 'plain' and any(truth.values()):
+        import pints
+        try:
+            # (rows in chronological order: the likelihood documents
+            # increasing times)
+            df = df.sort_values('Time', kind='stable').reset_index(drop=True)
+            c = chi.ProblemModellingController(m, chi.GaussianErrorModel())
+            c.set_data(df, dose_duration_key=dur_key)
+            n_par = c.get_n_parameters()
+            prior = pints.ComposedLogPrior(*[
+                pints.GaussianLogPrior(1.0, 1.0) for _ in range(n_par)])
+            c.set_log_prior(prior)
+            for key in truth:
+                c.get_log_posterior(individual=key)
+            pm_before = c.get_predictive_model().get_dosing_regimen()
+            df0 = df[df['Dose'].isnull()].drop(
+                columns=[k_ for k_ in ('Dose', 'Duration')
+                         if k_ in df.columns])
+            c.set_data(df0, dose_key=None, dose_duration_key=None)
+            c.set_log_prior(prior)
+            fresh = chi.ProblemModellingController(
+                m, chi.GaussianErrorModel())
+            fresh.set_data(df0, dose_key=None, dose_duration_key=None)
+            fresh.set_log_prior(prior)
+            x = rng.uniform(0.5, 1.5, n_par)
+            for key in truth:
+                va = c.get_log_posterior(individual=key)(x)
+                vb = fresh.get_log_posterior(individual=key)(x)
+                ctx.count('dose_free_redata_compared')
+                if not (va == vb or abs(va - vb) <= 1e-9 * (1 + abs(vb))):
+                    ctx.violation(
+                        'dataset_regimen_reproduces_dose_rows',
+                        'stale_regimen_after_dose_free_data',
+                        {'id': key, 'controller_with_history': va,
+                         'fresh_controller': vb,
+                         'dose_rows_of_first_dataset': truth}, feats)
+                    return
+            if pm_before is not None and len(pm_before):
+                ctx.violation('dataset_regimen_reproduces_dose_rows',
+                              'controller_model_keeps_an_individuals_regimen',
+                              {'predictive_model_regimen':
+                               pm_before.to_dict('records')}, feats)
+        except Exception as e:      # noqa
+            ctx.violation_exc('set_data_raises', e,
+                              {'case': feats, 'step': 'dose-free data'},
+                              feats)
+
 
 FAMILIES = [
     Family('cumulative', cumulative_case, quick=240, thorough=6000),
